@@ -41,6 +41,13 @@ Definition eval_store (D : list opdef) (fuel : nat) (r : env) (st : list (string
 Definition next_choice (ks : list nat) : nat * list nat :=
   match ks with [] => (O, []) | k :: r => (k, r) end.
 
+Definition pick {A} (f : dtree -> A) (dflt : A) : list dtree -> nat -> A :=
+  fix pick (ts : list dtree) (n : nat) {struct ts} : A :=
+    match ts with
+    | [] => dflt
+    | t1 :: more => match n with O => f t1 | S n' => pick more n' end
+    end.
+
 Fixpoint run (D : list opdef) (fuel : nat) (t : dtree) (r : env) (ks : list nat) {struct t} : outcome :=
   match t with
   | Leaf (LCommit g l p) =>
@@ -78,11 +85,7 @@ Fixpoint run (D : list opdef) (fuel : nat) (t : dtree) (r : env) (ks : list nat)
       | [] => OAbort
       | _ =>
         let '(c, ks') := next_choice ks in
-        (fix pick (ts : list dtree) (n : nat) {struct ts} : outcome :=
-           match ts with
-           | [] => OErr "either"
-           | t1 :: more => match n with O => run D fuel t1 r ks' | S n' => pick more n' end
-           end) ts (Nat.modulo c (List.length ts))
+        pick (fun t1 => run D fuel t1 r ks') (OErr "either") ts (Nat.modulo c (List.length ts))
       end
   | Fail m => OErr ("symbolic execution failed: " ++ m)%string
   end.
@@ -99,7 +102,7 @@ Definition is_binder (t : tag) : bool :=
    alpha-equivalent expressions get identical names whatever their context *)
 Fixpoint bheight (e : expr) : nat :=
   match e with
-  | N t cs => let m := fold_right (fun c acc => Nat.max (bheight c) acc) O cs in
+  | Nd t cs => let m := fold_right (fun c acc => Nat.max (bheight c) acc) O cs in
               if is_binder t then S m else m
   end.
 
@@ -109,9 +112,9 @@ Definition canon_name (h i : nat) : string := ("%" ++ nat_str h ++ "." ++ nat_st
 (* plain renaming of free named variables / local operator names (no binder inside binds them) *)
 Fixpoint rename (m : list (string * string)) (e : expr) : expr :=
   match e with
-  | N (TVar x) [] => match lookup x m with Some y => N (TVar y) [] | None => e end
-  | N (TCall f) cs => N (TCall (match lookup f m with Some g => g | None => f end)) (map (rename m) cs)
-  | N t cs => N t (map (rename m) cs)
+  | Nd (TVar x) [] => match lookup x m with Some y => Nd (TVar y) [] | None => e end
+  | Nd (TCall f) cs => Nd (TCall (match lookup f m with Some g => g | None => f end)) (map (rename m) cs)
+  | Nd t cs => Nd t (map (rename m) cs)
   end.
 
 Definition pat_vars (p : pat) : list string := match p with PVar x => [x] | PTup xs => xs end.
@@ -165,9 +168,38 @@ Definition cur_loc (S : sstate) x : expr := match lookup x (s_loc S) with Some e
 
 Definition mem (x : string) (l : list string) : bool := existsb (String.eqb x) l.
 
+(* decidable syntactic equality of expressions *)
+Definition lit_eq_dec (a b : lit) : {a = b} + {a <> b}.
+Proof. decide equality; [apply Z.eq_dec | apply string_dec | apply bool_dec]. Defined.
+Definition pat_eq_dec (a b : pat) : {a = b} + {a <> b}.
+Proof. decide equality; [apply string_dec | apply (list_eq_dec string_dec)]. Defined.
+Definition bop_eq_dec (a b : bop) : {a = b} + {a <> b}.
+Proof. decide equality. Defined.
+Definition tag_eq_dec (a b : tag) : {a = b} + {a <> b}.
+Proof.
+  decide equality;
+    try apply string_dec; try apply Nat.eq_dec; try apply bool_dec; try apply lit_eq_dec;
+    try apply bop_eq_dec; try apply pat_eq_dec;
+    try apply (list_eq_dec string_dec); try apply (list_eq_dec Nat.eq_dec); try apply (list_eq_dec pat_eq_dec).
+Defined.
+
+Fixpoint expr_eq_dec (a b : expr) {struct a} : {a = b} + {a <> b}.
+Proof.
+  destruct a as [t cs], b as [t' cs'].
+  destruct (tag_eq_dec t t') as [Ht | Ht]; [| right; congruence].
+  destruct (list_eq_dec expr_eq_dec cs cs') as [Hc | Hc]; [left; congruence | right; congruence].
+Defined.
+
 Section Subst.
   Variable locals : list string.     (* TLA+ per-process variables (accessed as v[self]) *)
+  Variable selfe : option expr.      (* single-process algorithms: the literal process id standing for self *)
   Variable S : sstate.
+
+  Definition is_self (e : expr) : bool :=
+    match e with
+    | Nd TSelf [] => true
+    | _ => match selfe with Some s => if expr_eq_dec e s then true else false | None => false end
+    end.
 
   (* m: source names in scope of the current symbolic state, minus the ones re-bound inside e *)
   Fixpoint subst (m : list (string * expr)) (e : expr) {struct e} : expr :=
@@ -179,33 +211,33 @@ Section Subst.
            | [b] => [subst (remove_keys bound m) b]
            | c :: r => subst m c :: go r
            end) cs in
-    let finish (t : tag -> tag) (bound : list string) (cs' : list expr) : expr :=
+    let finish (t : (string -> string) -> tag) (bound : list string) (cs' : list expr) : expr :=
         let h := match split_last cs' with Some (_, b) => bheight b | None => O end in
         let rn := canon_map h bound in
         match split_last cs' with
-        | Some (outer, b) => N (t (fun x => match lookup x rn with Some y => y | None => x end)) (outer ++ [rename rn b])
-        | None => N (t (fun x => x)) cs'
+        | Some (outer, b) => Nd (t (fun x => match lookup x rn with Some y => y | None => x end)) (outer ++ [rename rn b])
+        | None => Nd (t (fun x => x)) cs'
         end in
     match e with
-    | N (TVar x) [] => match lookup x m with Some e' => e' | None => e end
-    | N (TState x) [] => if mem x locals then e else cur_glob_pre x
-    | N (TPrime x) [] => if mem x locals then e else cur_glob S x
-    | N TApp [N (TState x) []; a] =>
+    | Nd (TVar x) [] => match lookup x m with Some e' => e' | None => e end
+    | Nd (TState x) [] => if mem x locals then e else EGlobal x
+    | Nd (TPrime x) [] => if mem x locals then e else cur_glob S x
+    | Nd TApp [Nd (TState x) []; a] =>
         let a' := subst m a in
         if mem x locals then
-          match a' with N TSelf [] => ELocal x | _ => N TApp [N (TState x) []; a'] end
-        else N TApp [cur_glob_pre x; a']
-    | N TApp [N (TPrime x) []; a] =>
+          (if is_self a' then ELocal x else Nd TApp [Nd (TState x) []; a'])
+        else Nd TApp [EGlobal x; a']
+    | Nd TApp [Nd (TPrime x) []; a] =>
         let a' := subst m a in
         if mem x locals then
-          match a' with N TSelf [] => cur_loc S x | _ => N TApp [N (TPrime x) []; a'] end
-        else N TApp [cur_glob S x; a']
-    | N (TCall f) cs =>
+          (if is_self a' then cur_loc S x else Nd TApp [Nd (TPrime x) []; a'])
+        else Nd TApp [cur_glob S x; a']
+    | Nd (TCall f) cs =>
         match lookup f m with
-        | Some (N (TVar g) []) => N (TCall g) (map (subst m) cs)
-        | _ => N (TCall f) (map (subst m) cs)
+        | Some (Nd (TVar g) []) => Nd (TCall g) (map (subst m) cs)
+        | _ => Nd (TCall f) (map (subst m) cs)
         end
-    | N (TLet x ps) [d; b] =>
+    | Nd (TLet x ps) [d; b] =>
         let d' := subst (remove_keys ps m) d in
         let hd := bheight d' in
         let rd := canon_map hd ps in
@@ -213,28 +245,27 @@ Section Subst.
         let b' := subst (remove_keys [x] m) b in
         let hb := bheight b' in
         let xn := canon_name hb O in
-        N (TLet xn (map (fun p => match lookup p rd with Some y => y | None => p end) ps)) [d''; rename [(x, xn)] b']
-    | N (TFunc ps) cs =>
+        Nd (TLet xn (map (fun p => match lookup p rd with Some y => y | None => p end) ps)) [d''; rename [(x, xn)] b']
+    | Nd (TFunc ps) cs =>
         let bound := pats_vars ps in
         finish (fun r => TFunc (map (fun p => match p with PVar x => PVar (r x) | PTup xs => PTup (map r xs) end) ps)) bound (under bound cs)
-    | N (TExists ps) cs =>
+    | Nd (TExists ps) cs =>
         let bound := pats_vars ps in
         finish (fun r => TExists (map (fun p => match p with PVar x => PVar (r x) | PTup xs => PTup (map r xs) end) ps)) bound (under bound cs)
-    | N (TForall ps) cs =>
+    | Nd (TForall ps) cs =>
         let bound := pats_vars ps in
         finish (fun r => TForall (map (fun p => match p with PVar x => PVar (r x) | PTup xs => PTup (map r xs) end) ps)) bound (under bound cs)
-    | N (TSetMap ps) cs =>
+    | Nd (TSetMap ps) cs =>
         let bound := pats_vars ps in
         finish (fun r => TSetMap (map (fun p => match p with PVar x => PVar (r x) | PTup xs => PTup (map r xs) end) ps)) bound (under bound cs)
-    | N (TFilter p) cs =>
+    | Nd (TFilter p) cs =>
         let bound := pat_vars p in
         finish (fun r => TFilter (match p with PVar x => PVar (r x) | PTup xs => PTup (map r xs) end)) bound (under bound cs)
-    | N (TChoose p) cs =>
+    | Nd (TChoose p) cs =>
         let bound := pat_vars p in
         finish (fun r => TChoose (match p with PVar x => PVar (r x) | PTup xs => PTup (map r xs) end)) bound (under bound cs)
-    | N t cs => N t (map (subst m) cs)
-    end
-  where "'cur_glob_pre' x" := (EGlobal x).
+    | Nd t cs => Nd t (map (subst m) cs)
+    end.
 End Subst.
 
 (* ------------------------------------------------------------------ Go side *)
@@ -242,6 +273,7 @@ End Subst.
 Inductive gstmt :=
 | GRes (h res : string)                       (* h := iface.RequireArchetypeResource("A.v") *)
 | GRef (h res : string)                       (* h, err := iface.RequireArchetypeResourceRef("A.p") *)
+| GRefArg (h res : string)                    (* h := iface.ReadArchetypeResourceLocal("A.p") : a ref parameter passed on to a call *)
 | GRead (x h : string) (idx : list expr)      (* var x tla.Value; x, err = iface.Read(h, idx) *)
 | GWrite (h : string) (idx : list expr) (e : expr)   (* err = iface.Write(h, idx, e) *)
 | GIf (c : expr) (t e : list gstmt)           (* if c.AsBool() {..} else {..} *)
@@ -307,7 +339,8 @@ Definition tgt_update (S : sstate) (t : target) (idx : list expr) (e : expr) : s
 
 Section Symex.
   Variable locals : list string.
-  Definition sub (S : sstate) (e : expr) : expr := subst locals S (s_env S) e.
+  Variable selfe : option expr.
+  Definition sub (S : sstate) (e : expr) : expr := subst locals selfe S (s_env S) e.
 
   (* expansion of a mapping-macro body; k receives the state, whether $variable was assigned and
      its current value, and the yielded expression *)
@@ -379,7 +412,8 @@ Section Symex.
     | Some r =>
         match lookup r (i_binds I) with
         | Some b => Some b
-        | None => Some (mkBind (TgtLocal (strip_prefix (i_arch I) r)) None)
+        | None => let v := strip_prefix (i_arch I) r in
+                  Some (mkBind (if mem v locals then TgtLocal v else TgtGlobal v) None)
         end
     end.
 
@@ -419,7 +453,7 @@ Section Symex.
         | GGoto l => commit (set_loc S "pc" (EStr (tla_label l)))
         | GDone => Leaf LDone
         | GFallthrough => Leaf LFallthrough
-        | GCall _ _ _ | GTailCall _ _ | GReturn => Fail "procedure calls: not yet modelled"
+        | GRefArg _ _ | GCall _ _ _ | GTailCall _ _ | GReturn => Fail "procedure calls: not yet modelled"
         end
       end
     end.
@@ -428,16 +462,16 @@ Section Symex.
 
   Fixpoint is_action (e : expr) : bool :=
     match e with
-    | N (TPrime _) _ => true
-    | N TUnchanged _ => true
-    | N (TOp B_Assert) _ => true
-    | N (TOp B_PrintT) _ => true
-    | N (TOp B_Print) _ => true
-    | N _ cs => existsb is_action cs
+    | Nd (TPrime _) _ => true
+    | Nd TUnchanged _ => true
+    | Nd (TOp B_Assert) _ => true
+    | Nd (TOp B_PrintT) _ => true
+    | Nd (TOp B_Print) _ => true
+    | Nd _ cs => existsb is_action cs
     end.
 
   Fixpoint has_at (e : expr) : bool :=
-    match e with N TAt _ => true | N _ cs => existsb has_at cs end.
+    match e with Nd TAt _ => true | Nd _ cs => existsb has_at cs end.
 
   Fixpoint symex_tla (fuel : nat) (todo : list expr) (S : sstate) {struct fuel} : dtree :=
     match fuel with
@@ -449,22 +483,22 @@ Section Symex.
         if negb (is_action c) then Branch (sub S c) (symex_tla fuel rest S) (Leaf LAbort)
         else
           match c with
-          | N TConj cs => symex_tla fuel (cs ++ rest) S
-          | N (TOp B_and) [a; b] => symex_tla fuel (a :: b :: rest) S
-          | N TDisj cs => Either (map (fun d => symex_tla fuel (d :: rest) S) cs)
-          | N TIf [g; a; b] => Branch (sub S g) (symex_tla fuel (a :: rest) S) (symex_tla fuel (b :: rest) S)
-          | N (TExists [PVar x]) [s; body] => Choice (sub S s) (symex_tla fuel (body :: rest) (push_choice S x))
-          | N (TLet x []) [d; b] => symex_tla fuel (b :: rest) (set_env S x (sub S d))
-          | N TUnchanged _ => symex_tla fuel rest S
-          | N (TOp B_Assert) (g :: _) => Branch (sub S g) (symex_tla fuel rest S) (Leaf LAssert)
-          | N (TOp B_PrintT) [e] => symex_tla fuel rest (add_print S (sub S e))
-          | N (TOp B_eq) [N (TPrime x) []; e] =>
+          | Nd TConj cs => symex_tla fuel (cs ++ rest) S
+          | Nd (TOp B_and) [a; b] => symex_tla fuel (a :: b :: rest) S
+          | Nd TDisj cs => Either (map (fun d => symex_tla fuel (d :: rest) S) cs)
+          | Nd TIf [g; a; b] => Branch (sub S g) (symex_tla fuel (a :: rest) S) (symex_tla fuel (b :: rest) S)
+          | Nd (TExists [PVar x]) [s; body] => Choice (sub S s) (symex_tla fuel (body :: rest) (push_choice S x))
+          | Nd (TLet x []) [d; b] => symex_tla fuel (b :: rest) (set_env S x (sub S d))
+          | Nd TUnchanged _ => symex_tla fuel rest S
+          | Nd (TOp B_Assert) (g :: _) => Branch (sub S g) (symex_tla fuel rest S) (Leaf LAssert)
+          | Nd (TOp B_PrintT) [e] => symex_tla fuel rest (add_print S (sub S e))
+          | Nd (TOp B_eq) [Nd (TPrime x) []; e] =>
               if mem x locals then
                 match e with
-                | N (TExcept [n]) (N (TState y) [] :: p0 :: more) =>
+                | Nd (TExcept [n]) (Nd (TState y) [] :: p0 :: more) =>
                     if String.eqb x y then
-                      match sub S p0, split_last more with
-                      | N TSelf [], Some (path, v) =>
+                      match is_self selfe (sub S p0), split_last more with
+                      | true, Some (path, v) =>
                           if has_at v then Fail ("@ in an assignment to " ++ x)
                           else match path with
                                | [] => symex_tla fuel rest (set_loc S x (sub S v))
@@ -481,13 +515,14 @@ Section Symex.
       end
     end.
 
-  (* an action  lbl(self) == /\ pc[self] = "lbl" /\ ...  *)
-  Definition tla_action_tree (fuel : nat) (lbl : string) (self_param : string) (body : expr) : dtree :=
-    let S := set_env s0 self_param ESelf in
-    let conjs := match body with N TConj cs => cs | _ => [body] end in
+  (* an action  lbl(self) == /\ pc[self] = "lbl" /\ ...   (or  lbl == /\ pc[<id>] = "lbl" /\ ...  for a
+     single process, where selfe = Some <id>) *)
+  Definition tla_action_tree (fuel : nat) (lbl : string) (self_param : option string) (body : expr) : dtree :=
+    let S := match self_param with Some p => set_env s0 p ESelf | None => s0 end in
+    let conjs := match body with Nd TConj cs => cs | _ => [body] end in
     match conjs with
-    | N (TOp B_eq) [N TApp [N (TState "pc") []; N (TVar p) []]; N (TLit (LStr l)) []] :: rest =>
-        if String.eqb p self_param && String.eqb l lbl then symex_tla fuel rest S
+    | Nd (TOp B_eq) [Nd TApp [Nd (TState "pc") []; a]; Nd (TLit (LStr l)) []] :: rest =>
+        if is_self selfe (sub S a) && String.eqb l lbl then symex_tla fuel rest S
         else Fail "action does not start with pc[self] = its own label"
     | _ => Fail "action does not start with pc[self] = label"
     end.
@@ -498,11 +533,17 @@ End Symex.
 (* ------------------------------------------------------------------ normaliser and checker *)
 
 (* sound simplifications applied to both trees before the syntactic comparison *)
+Definition lit_bool (c : expr) : option bool :=
+  match c with Nd (TLit (LBool b)) [] => Some b | _ => None end.
+
 Fixpoint norm (t : dtree) : dtree :=
   match t with
-  | Branch (N (TLit (LBool true)) []) t1 _ => norm t1
-  | Branch (N (TLit (LBool false)) []) _ t2 => norm t2
-  | Branch c t1 t2 => Branch c (norm t1) (norm t2)
+  | Branch c t1 t2 =>
+      match lit_bool c with
+      | Some true => norm t1
+      | Some false => norm t2
+      | None => Branch c (norm t1) (norm t2)
+      end
   | Choice s k => Choice s (norm k)
   | Either ts => Either (map norm ts)
   | _ => t
@@ -516,27 +557,6 @@ Fixpoint has_fail (t : dtree) : bool :=
   | Choice _ k => has_fail k
   | Either ts => existsb has_fail ts
   end.
-
-Definition lit_eq_dec (a b : lit) : {a = b} + {a <> b}.
-Proof. decide equality; [apply Z.eq_dec | apply string_dec | apply bool_dec]. Defined.
-Definition pat_eq_dec (a b : pat) : {a = b} + {a <> b}.
-Proof. decide equality; [apply string_dec | apply (list_eq_dec string_dec)]. Defined.
-Definition bop_eq_dec (a b : bop) : {a = b} + {a <> b}.
-Proof. decide equality. Defined.
-Definition tag_eq_dec (a b : tag) : {a = b} + {a <> b}.
-Proof.
-  decide equality;
-    try apply string_dec; try apply Nat.eq_dec; try apply bool_dec; try apply lit_eq_dec;
-    try apply bop_eq_dec; try apply pat_eq_dec;
-    try apply (list_eq_dec string_dec); try apply (list_eq_dec Nat.eq_dec); try apply (list_eq_dec pat_eq_dec).
-Defined.
-
-Fixpoint expr_eq_dec (a b : expr) {struct a} : {a = b} + {a <> b}.
-Proof.
-  destruct a as [t cs], b as [t' cs'].
-  destruct (tag_eq_dec t t') as [Ht | Ht]; [| right; congruence].
-  destruct (list_eq_dec expr_eq_dec cs cs') as [Hc | Hc]; [left; congruence | right; congruence].
-Defined.
 
 Definition store_eq_dec (a b : list (string * expr)) : {a = b} + {a <> b}.
 Proof. apply list_eq_dec. intros [x e] [y f]. destruct (string_dec x y); [| right; congruence].
@@ -565,7 +585,7 @@ Definition equiv_check (t1 t2 : dtree) : bool :=
 (* canonical form of the operator definitions (parameters renamed by the same discipline) *)
 Definition canon_def (d : opdef) : opdef :=
   let '(f, (ps, body)) := d in
-  let b' := subst [] s0 [] body in
+  let b' := subst [] None s0 [] body in
   let h := bheight b' in
   let rn := canon_map (Datatypes.S h) ps in
   (f, (map (fun p => match lookup p rn with Some y => y | None => p end) ps, rename rn b')).
